@@ -828,6 +828,40 @@ def get_visitor_class(pyc, name):
                 self.generic_visit(node)
 
         cls = Collect
+    elif name == "CollectMore":
+        # a visitor class *hierarchy*: derived class overrides and adds methods
+        Base = get_visitor_class(pyc, "Collect")
+
+        class CollectMore(Base):
+            def visit_ID(self, node):
+                self.log.append((self.tag, "id-more", node.name.upper()))
+
+            def visit_FuncCall(self, node):
+                self.log.append((self.tag, "call"))
+                self.generic_visit(node)
+
+            def visit_Typedef(self, node):
+                self.log.append((self.tag, "typedef-more", node.name))
+
+            def visit_Constant(self, node):
+                self.log.append((self.tag, "const", node.value))
+
+        cls = CollectMore
+    elif name == "CountMore":
+        Base = get_visitor_class(pyc, "Count")
+
+        class CountMore(Base):
+            def visit_Constant(self, node):
+                self.log.append((self.tag, "C-more", node.type))
+
+            def visit_ID(self, node):
+                self.log.append((self.tag, "I", node.name))
+
+            def visit_Compound(self, node):
+                self.log.append((self.tag, "{{", len(node.block_items or [])))
+                self.generic_visit(node)
+
+        cls = CountMore
     else:
 
         class Count(NV):
